@@ -24,6 +24,16 @@ CHECKS = {
     ),
 }
 
+CHECKS["C11"] = dict(
+    category="other",
+    technique="table reading: rustc const-evaluated static initialisers and MIR match tables compared with a specification-derived oracle",
+    text=("Static, exhaustive comparison of the WOFF2 decoder's constant tables with the W3C specification: all 128 triplet rows, "
+          "63 known tags, 255UInt16 codes/offsets and UIntBase128 constants, read from the compiled program without running it. "
+          "Decides a necessary condition of the property (a wrong row mis-decodes some conforming file); stream bookkeeping and "
+          "reconstruction arithmetic are not decided."),
+    design_ref="DESIGN.md section 6, C11",
+)
+
 NOT_APPLICABLE = {
     "C05": "every clause is a numeric relation between table contents and output values; the structural parts (termination, borrow and panic discipline, attachment index validation) are decided under C02; no GPOS-specific clause is visible in the shape of the code",
 }
